@@ -301,9 +301,10 @@ func (o *oracles) afterAPI(op Op, r OpResult) {
 		r  OpResult
 	}{op, r}
 	switch op.K {
-	case "ResetConv":
+	case "ResetConv", "DelTag", "SetConv":
+		// may reset a converter cache (detaching the last tag resets it)
 		if r.Err == "" {
-			o.cacheEvents = append(o.cacheEvents, cacheEvent{o.s.stepNo, "api:ResetConv", -1})
+			o.cacheEvents = append(o.cacheEvents, cacheEvent{o.s.stepNo, "api:" + op.K, -1})
 		}
 	case "OpenView":
 		o.viewOpened(op, r)
@@ -604,22 +605,25 @@ func (o *oracles) checkQuiescent() {
 
 // ---- C06 ------------------------------------------------------------------------
 
+// convReading: the definition contains a payload filter that looks at
+// converter output: data.<conv>: explicitly, or a plain data:/cdata:/sdata:
+// filter, which searches every representation of a stream (raw payload and
+// all cached converter outputs). Only data.none: is raw-only.
 func convReading(def string) bool {
-	for _, k := range []string{"data.", "cdata.", "sdata."} {
-		i := strings.Index(def, k)
-		for i >= 0 {
-			rest := def[i+len(k):]
-			if !strings.HasPrefix(rest, "none:") && !strings.HasPrefix(rest, "none=") {
-				return true
-			}
-			j := strings.Index(rest, k)
-			if j < 0 {
-				break
-			}
-			i += len(k) + j
+	rest := def
+	for {
+		i := strings.Index(rest, "data")
+		if i < 0 {
+			return false
 		}
+		after := rest[i+4:]
+		switch {
+		case strings.HasPrefix(after, ".none:"), strings.HasPrefix(after, ".none="):
+		case strings.HasPrefix(after, ":"), strings.HasPrefix(after, "="), strings.HasPrefix(after, "."):
+			return true
+		}
+		rest = after
 	}
-	return false
 }
 
 type cacheEvent struct {
